@@ -20,8 +20,8 @@ checks={
  "C13":("fault_enumeration","l0","CLAIMED IN PART: frame clause decided by enumerating bit flips/truncations of real frames; codec round trip and size bounds only on generated values", L0),
  "C14":("fault_enumeration","l0","real SnapshotWriter/Reader (v1+v2, with/without compression) over SimFS: every single-bit flip of small files and streams is enumerated, larger ones sampled; truncations, lost/repeated pieces; the ChunkWriter->SnapshotValidator stream side; shrunk snapshots; I/O errors", L0),
  "C15":("exploration","l0","real sender side splitting -> real transport.Chunk receiver over SimFS with tape-chosen perturbations (drop, swap, duplicate, restart, interleaved senders/indexes, corrupt bytes, foreign ids, removed replica, GC tick placement, hostile file names), incl. exhaustive single perturbations of a fixed 5-chunk stream", L0),
- "C16":("exploration","simhost","crashes land between any two file system operations of snapshot save/receive/commit/compact; what a crash leaves in the snapshot directory is marked, and after the real start-up path only the recorded snapshot may remain (unflagged, file present); the replica must restart and is held to its promises (C04 ledger)", SIMHOST),
- "C17":("exploration","simhost","after the fault phase (loss, partitions, crashes, restarts, membership changes, transfers, quiesce) a fair fault-free schedule in which clients keep submitting requests (in a third of the runs with a ReadIndex on every replica in every round) must produce a leader, complete fresh proposals and reads and bring every member to the commit index within a stated tick budget; failures are diagnosed (cause tag) so that the two recorded findings are told apart from anything new", SIMHOST),
+ "C16":("exploration","simhost","crashes land between any two file system operations of snapshot save/receive/commit/compact; what a crash leaves in the snapshot directory is marked, and after the real start-up path only the recorded snapshot may remain (unflagged, file present); the replica must restart and is held to its promises (C04 ledger); one part with a second (ballast) shard per host whose snapshots occupy the only snapshot worker", SIMHOST),
+ "C17":("exploration","simhost","after the fault phase (loss, partitions, crashes, restarts, membership changes, transfers, quiesce) a fair fault-free schedule in which clients keep submitting requests (in a third of the runs with a ReadIndex on every replica in every round) must produce a leader, complete fresh proposals and reads and bring every member to the commit index within a stated tick budget; failures are diagnosed (cause tag) so that the two recorded findings are told apart from anything new; one part with two shards per host sharing the engine's workers", SIMHOST),
  "C18":("exploration","simhost","replicas whose own applied membership does not list them as voters must never be candidate/leader; election and ReadIndex confirmation quorums are recomputed from the votes / echoes that actually left the voters and witnesses; a leader with CheckQuorum to which nothing but its non-voting members has been delivered for three election timeouts must have stepped down; the raft core's member sets equal the applied membership on an idle replica; witnesses never receive payloads and never serve reads; explored over cluster shapes with non-voting members and witnesses, group splits and promotions", SIMHOST),
  "C19":("exploration","l0","real entryLog+LogReader driven against a slice model of the logical log after every operation", L0),
  "C20":("exploration","simhost","seeded history, RequestSnapshot(Exported) at a random point, more history, loss of all hosts, tools.ImportSnapshot on every listed host with a tape-chosen member list (subset/fresh/single; invalid lists; damaged export directory), restart: membership must equal the list with unlisted old members removed, every replica must recover exactly the exported state, a leader must emerge and new proposals complete; refused imports must leave the disk byte-identical; simhost runs on Tan, the log store side of ImportSnapshot is additionally compared with a reference store on the Pebble layouts and Tan (l0/logstore parts) straight after the import and after the reopen", SIMHOST+"; "+L0),
